@@ -99,7 +99,7 @@ RULES = [
 
 def rule_mustpass(ctx):
     from . import mustpass
-    mustpass.check(ctx, ['recv-runs-handler', 'wakers-wake', 'wake-updates-state'])
+    mustpass.check(ctx, ['recv-runs-handler', 'wakers-wake', 'wake-updates-state', 'model-task-inits', 'model-task-receives', 'model-task-ends-only-on-error-or-abort'])
 
 
 RULES.append(("C05.e", "must-pass-through: no path around the effects this property rests on (added fast paths / early returns)", rule_mustpass))
